@@ -523,6 +523,20 @@ func runOrd3(m *Model, r *RuleResult) {
 			}
 			mc, ok := st.Val.(*ssa.MakeClosure)
 			if !ok {
+				// built by a helper of the package that returns the function literal
+				if call, isCall := st.Val.(*ssa.Call); isCall {
+					if c := call.Call.StaticCallee(); c != nil && pkgPathOf(c) == pkgPathOf(f) {
+						eachInstr(c, func(in3 ssa.Instruction) {
+							if ret, isRet := in3.(*ssa.Return); isRet && len(ret.Results) == 1 {
+								if mc2, isMC := ret.Results[0].(*ssa.MakeClosure); isMC {
+									mc, ok = mc2, true
+								}
+							}
+						})
+					}
+				}
+			}
+			if !ok {
 				if c, isC := st.Val.(*ssa.Const); isC && c.Value == nil {
 					return
 				}
@@ -619,6 +633,12 @@ func isLoadOf(v ssa.Value, loc string) bool {
 }
 
 func isMinReductionOver(v ssa.Value, loc string, seen map[ssa.Value]bool) bool {
+	return isMinReductionOverB(v, loc, seen, nil)
+}
+
+// isMinReductionOverB: bind maps function-typed parameters of the helper being looked into to the arguments of its call site
+// (`MinOf(g.Nodes, math.MaxInt, nodeLayer)`: inside MinOf, key(x) is nodeLayer(x), which returns x.Layer).
+func isMinReductionOverB(v ssa.Value, loc string, seen map[ssa.Value]bool, bind map[ssa.Value]ssa.Value) bool {
 	if seen[v] {
 		return false
 	}
@@ -626,23 +646,57 @@ func isMinReductionOver(v ssa.Value, loc string, seen map[ssa.Value]bool) bool {
 	switch x := v.(type) {
 	case *ssa.Phi:
 		for _, e := range x.Edges {
-			if isMinReductionOver(e, loc, seen) {
+			if isMinReductionOverB(e, loc, seen, bind) {
 				return true
 			}
 		}
 	case *ssa.Call:
-		if b, ok := x.Call.Value.(*ssa.Builtin); ok && b.Name() == "min" {
+		if minMaxKind(&x.Call) == "min" {
 			for _, a := range x.Call.Args {
 				if isLoadOf(a, loc) {
 					return true
+				}
+				// key(x) with key bound to a function of the module that returns the field of its parameter
+				if kc, ok := a.(*ssa.Call); ok && kc.Call.StaticCallee() == nil && !kc.Call.IsInvoke() && bind != nil {
+					if fv, ok := bind[kc.Call.Value]; ok {
+						var k *ssa.Function
+						switch f := fv.(type) {
+						case *ssa.Function:
+							k = f
+						case *ssa.MakeClosure:
+							k, _ = f.Fn.(*ssa.Function)
+						}
+						if k != nil && len(k.Blocks) > 0 {
+							n, all := 0, true
+							eachInstr(k, func(in ssa.Instruction) {
+								if ret, ok := in.(*ssa.Return); ok && len(ret.Results) == 1 {
+									n++
+									if !isLoadOf(ret.Results[0], loc) {
+										all = false
+									}
+								}
+							})
+							if n > 0 && all {
+								return true
+							}
+						}
+					}
 				}
 			}
 		}
 		// a helper of the module that returns the reduction
 		if c := x.Call.StaticCallee(); c != nil && inModule(c) && len(c.Blocks) > 0 && c.Signature.Results().Len() == 1 {
+			nb := map[ssa.Value]ssa.Value{}
+			for i, p := range c.Params {
+				if i < len(x.Call.Args) {
+					if _, isFn := p.Type().Underlying().(*types.Signature); isFn {
+						nb[p] = x.Call.Args[i]
+					}
+				}
+			}
 			found := false
 			eachInstr(c, func(in ssa.Instruction) {
-				if ret, ok := in.(*ssa.Return); ok && len(ret.Results) == 1 && isMinReductionOver(ret.Results[0], loc, seen) {
+				if ret, ok := in.(*ssa.Return); ok && len(ret.Results) == 1 && isMinReductionOverB(ret.Results[0], loc, seen, nb) {
 					found = true
 				}
 			})
